@@ -240,6 +240,36 @@ def real_walk(data):
     return "ok total=%d pointer=%d chunks=%d" % (h.total_size, h.offset_metdata_chunk, n)
 
 
+def real_load_head(data):
+    """what DSF(fileobj) has in hand when the frame parsing starts: the lines of DSF.load / ID3.load up to
+    `self._read(...)` / `find_id3v1(...)`, run on the real DSFFile, _pre_load_header, ID3Header and read_full"""
+    from mutagen import dsf
+    from mutagen._util import read_full
+    from mutagen.id3._tags import ID3Header
+    from mutagen.id3._util import ID3NoHeaderError, ID3UnsupportedVersionError, error as ID3Error
+    f = io.BytesIO(data)
+    dsf.DSFFile(f)
+    t = dsf._DSFID3()
+    try:
+        t._pre_load_header(f)
+    except ID3NoHeaderError:
+        return "ok notag"
+    try:
+        h = ID3Header(f)
+    except (ID3NoHeaderError, ID3UnsupportedVersionError):
+        return "ok searchv1"
+    size = h.size - 10
+    if h.f_extended:
+        size -= 4 + len(h._extdata)
+    if size < 0:
+        raise ID3Error("Extended header exceeds the tag size")
+    try:
+        body = read_full(f, size)
+    except IOError as e:
+        raise ID3Error(e)
+    return "ok tag=%s" % hx(body)
+
+
 def read_answer(data):
     """the answer expected from the specification-side reader for `data`"""
     p = strict_parse(data)
@@ -307,7 +337,7 @@ def check_save(ctx, lay, data, out, vmaj, frames, pad, offered, case):
                 offered[0][0], offered[0][1], old_n - (len(frames) + 10)), case)
         if len(offered) != 1:
             ctx.violation(key + "callback-count", "the padding callback was called %d times" % len(offered), case)
-        want = {"keep": max(offered[0][0], 0)}.get(pad)
+        want = {"keep": max(offered[0][0], 0), "default": got_pad}.get(pad)
         if want is None:
             want = int(pad)
         if got_pad != want:
@@ -315,7 +345,7 @@ def check_save(ctx, lay, data, out, vmaj, frames, pad, offered, case):
         if pad == "keep" and offered[0][0] >= 0 and (len(out) != len(data) or out[:pos] != data[:pos]):
             ctx.violation(key + "keep-moves-file", "answering with the offered padding changed the file size %d -> %d or a byte in front of the tag" % (
                 len(data), len(out)), case)
-    else:
+    if pad == "default":
         avail = old_n - (len(frames) + 10)
         if 0 <= avail <= 1024 and got_pad != avail:
             ctx.violation(key + "default-does-not-reuse", "default padding: %d bytes were available (<= 1 KiB), the file has %d" % (avail, got_pad), case)
@@ -366,13 +396,21 @@ def run(ctx):
                 saver = tags
             frames = bytes(tags._write(ID3SaveConfig(vmaj, "/")))
 
+            answers = []
+
             def cb(info, pad=pad):
                 offered.append((info.padding, info.size))
-                return max(info.padding, 0) if pad == "keep" else int(pad)
-            padding = None if pad == "default" else cb
+                a = info.get_default_padding() if pad == "default" else max(info.padding, 0) if pad == "keep" else int(pad)
+                answers.append(a)
+                return a
+            # the default policy: `padding=None`, or - the same thing, but its answer is seen - a callback that asks for it
+            recorded = pad != "default" or rng.random() < 0.5
+            padding = cb if recorded else None
             k, r = timed(lambda: saver.save(f, v2_version=vmaj, padding=padding), 20)
             line = "dsf op=save data=%s vmaj=%d frames=%s pad=%s" % (hx(data), vmaj, hx(frames), pad)
             desc.update(vmaj=vmaj, pad=pad, frames_len=len(frames), how=how)
+            # for the total model (`savex`), asked where `save` says "outside the model": the answer the callback gave
+            savex = ("dsf op=savex data=%s vmaj=%d frames=%s ans=%%s" % (hx(data), vmaj, hx(frames))) if recorded else None
         else:
             how = rng.choice(["function", "method"])
             if how == "function":
@@ -384,6 +422,7 @@ def run(ctx):
                 k, r = timed(lambda: inst.delete(f), 20)
             line = "dsf op=delete data=%s" % hx(data)
             desc.update(how=how)
+            savex = None
         if k == "hang":
             ctx.violation("dsf:%s:hang" % op, "did not finish", desc)
             continue
@@ -392,15 +431,30 @@ def run(ctx):
         ctx.case(key=("dsf", op, kind, i), nontrivial=(k == "ok" and out != data), modelled=True, sample=desc if i in (2, 31) else None)
         ctx.hist["dsf:%s:%s" % (op, "ok" if k == "ok" else impl)] += 1
         ctx.hist["dsf:kind:" + kind.split(":")[0]] += 1
-        reqs.append((line, impl, desc))
+        if savex is not None:
+            # a callback that was called twice or whose answers differ cannot be replayed by a constant
+            savex = savex % (answers[0] if answers else 0) if len(set(answers)) <= 1 else None
+        reqs.append((line, impl, desc, savex))
         ncases += 1
+        # C04 on the real constructor, and the model of its first part
+        kc, rc = timed(lambda: dsf.DSF(io.BytesIO(data)), 20)
+        if kc == "hang":
+            ctx.violation("dsf:load:hang", "DSF(fileobj) did not finish", desc)
+        elif kc != "ok" and classify(rc) != "err mutagen":
+            ctx.violation("dsf:load:escapes", "DSF(fileobj) raised %s" % classify(rc), desc)
+        if rng.random() < 0.5:
+            kl, rl = timed(lambda: real_load_head(data), 20)
+            head = rl if kl == "ok" else classify(rl)
+            reqs.append(("dsf op=load data=%s" % hx(data), head, dict(desc, op="load"), None))
+            if head == "err mutagen" and kc == "ok":
+                ctx.violation("dsf:load:accepted", "DSF(fileobj) accepts a file whose header part is rejected", desc)
         # the chunk loaders alone, and the specification-side reader against the independent parser
         if rng.random() < 0.3:
             kw, rw = timed(lambda: real_walk(data), 20)
-            reqs.append(("dsf op=walk data=%s" % hx(data), rw if kw == "ok" else classify(rw), dict(desc, op="walk")))
+            reqs.append(("dsf op=walk data=%s" % hx(data), rw if kw == "ok" else classify(rw), dict(desc, op="walk"), None))
         if rng.random() < 0.3:
             which = out if k == "ok" else data
-            reqs.append(("dsf op=read data=%s" % hx(which), read_answer(which), dict(desc, op="read", of="output" if k == "ok" else "input")))
+            reqs.append(("dsf op=read data=%s" % hx(which), read_answer(which), dict(desc, op="read", of="output" if k == "ok" else "input"), None))
         # ---- the statements on the real output, for the layouts that are what they seem
         if lay is None:
             continue
@@ -454,11 +508,27 @@ def run(ctx):
     if any(a == "bad-op" for a in answers):
         ctx.notes.append("dsf_tie: the driver does not know the `dsf` command yet (not hooked into Driver/Main.lean); tie skipped")
         return ncases
-    for (line, impl, desc), ans in zip(reqs, answers):
+    again = []
+    for (line, impl, desc, savex), ans in zip(reqs, answers):
         if ans.startswith("err notimplemented"):
-            ctx.hist["dsf:outside-model"] += 1
+            if savex is not None:
+                again.append((savex, impl, desc))
+            else:
+                ctx.hist["dsf:outside-model"] += 1
             continue
         ctx.traces_validated += 1
         if ans != impl:
             ctx.disagree("dsf container", desc, model=ans[:200], impl=impl[:200])
+    # what the tied model leaves out, against the total model
+    if again:
+        answers2 = ask_model(ctx, [r[0] for r in again])
+        if any(a == "bad-op" for a in answers2):
+            ctx.notes.append("dsf_tie: the driver does not know `dsf op=savex` yet; %d cases stay outside the model" % len(again))
+            ctx.hist["dsf:outside-model"] += len(again)
+            return ncases
+        for (line, impl, desc), ans in zip(again, answers2):
+            ctx.traces_validated += 1
+            ctx.hist["dsf:total-model"] += 1
+            if ans != impl:
+                ctx.disagree("dsf container (total model)", desc, model=ans[:200], impl=impl[:200])
     return ncases
